@@ -40,8 +40,13 @@ def main(argv):
     uw = cap + 3
     bound = "strings <= %d bytes over all 256 byte values" % n
 
-    def H(name, enforce, replace=(), kind="B", unwind=uw, carries="", timeout=900, tier="quick"):
-        return ("recognisers", Harness("h_" + name, kind, enforce=enforce, replace=replace, unwind=unwind, defines=D,
+    # the two conversions to int multiply digit by digit: beyond 7 bytes the SAT query does not finish in the budget (measured), so the thorough
+    # tier stops at 7 for them (the other eleven harnesses go to 9)
+    ni = min(n, 7)
+    DI = {"N": ni, "VSTR_CAP": ni + 2, "VVEC_CAP": ni + 2}
+
+    def H(name, enforce, replace=(), kind="B", unwind=uw, carries="", timeout=900, tier="quick", defines=D, bound=bound):
+        return ("recognisers", Harness("h_" + name, kind, enforce=enforce, replace=replace, unwind=unwind, defines=defines,
                                        backend="sat", timeout=timeout, tier=tier, carries=carries,
                                        bound=None if kind == "F" else bound))
     c.harnesses = [
@@ -61,11 +66,11 @@ def main(argv):
           carries="accepted real text reaches std::stod only with a numeric prefix (conversion never throws)"),
         H("canConvertToBasicDouble", "canConvertToBasicDouble", ["isCellMLBasicReal", "stringToDouble"],
           carries="accepted mantissa text reaches std::stod only with a numeric prefix"),
-        H("convertToInt", "convertToInt", ["isCellMLInteger"],
+        H("convertToInt", "convertToInt", ["isCellMLInteger"], defines=DI, unwind=ni + 5, timeout=1800, bound="strings <= %d bytes over all 256 byte values" % ni,
           carries="integer text converted to its value or reported out of range, never throws"),
         H("isStandardPrefixName", "isStandardPrefixName", unwind=max(uw, 23), carries="SI prefix names against an independent SI table"),
-        H("convertPrefixToInt", "convertPrefixToInt", ["isStandardPrefixName", "convertToInt"], unwind=max(uw, 23),
-          carries="prefix text: SI name / empty / integer / rejected"),
+        H("convertPrefixToInt", "convertPrefixToInt", ["isStandardPrefixName", "convertToInt"], unwind=max(ni + 5, 23), defines=DI, timeout=1800,
+          bound="strings <= %d bytes over all 256 byte values" % ni, carries="prefix text: SI name / empty / integer / rejected"),
     ]
     c.harnesses.append(("units", Harness("h_addUnit_prefix", "B", enforce=None, replace=["isCellMLInteger"], unwind=uw, defines=dict(D, HEAP_N=2, VVEC_CAP=2), backend="sat",
                                          timeout=900, bound=bound,
